@@ -58,8 +58,9 @@ def recipGrid (n : Nat) (shift halfcomplex : Bool) : Grid :=
 `halfcx_parity`): `2m-2` for even, `2m-1` for odd. -/
 def irLen (m : Nat) (odd : Bool) : Nat := if odd then 2 * m - 1 else 2 * m - 2
 
-/-- `numpy.fft.irfftn(x, axes)` WITHOUT the `s` argument: always `2(m-1)`.  This is what
-`DiscreteFourierTransformInverse._call_numpy` calls. -/
+/-- What `numpy.fft.irfftn(x, axes)` produces WITHOUT the `s` argument: always `2(m-1)`.
+Not used by the model of the (repaired) code, which passes `s=` everywhere; kept to state why
+the argument is necessary (`C18.irfftn_without_s_loses_odd_length`). -/
 def irLenNumpyDefault (m : Nat) : Nat := 2 * (m - 1)
 
 /-- `realspace_grid` shape on the (last) transformed axis. -/
@@ -231,14 +232,14 @@ def dftForwardNd (roots : Nat → Option (K × K)) (fftw plus hc : Bool) (rshape
     pure (a, (if hc && some a == last then hcLen n else n), F)
   pure (applyAxes rshape steps x)
 
-/-- `DiscreteFourierTransformInverse._call_numpy/_call_pyfftw`.  Result: `none` = malformed
-for the model, `some (.error e)` = the code raises, `some (.ok r)`.  `rshape` is the shape of the
+/-- `DiscreteFourierTransformInverse._call_numpy/_call_pyfftw`.  `rshape` is the shape of the
 real-space side (the operator's range).  With `hc` the complex inverse runs over all axes but
-the last, then the complex-to-real transform over the last one.  `passS = false` models
-`np.fft.irfftn(x, axes)` without `s` (output length `2(m-1)`), which is what the NumPy
-branch of the plain DFT inverse does; a length different from the range raises. -/
-def dftInverseNd (roots : Nat → Option (K × K)) (conj re : K → K) (fftw plus hc passS : Bool)
-    (rshape axes : List Nat) (x : Array K) : Option (Except String (List Nat × Array K)) := do
+the last, then the complex-to-real transform over the last one, whose output length is the
+range's (`irfftn(x, s=…, axes)`; pyfftw: shape of the output array).  A real range without
+`hc` receives the real part of the complex result (NumPy: assignment to the real array;
+pyfftw: complex temporary, `out[:] = tmp.real`) — applied by the caller through `re`. -/
+def dftInverseNd (roots : Nat → Option (K × K)) (conj re : K → K) (fftw plus hc : Bool)
+    (rshape axes : List Nat) (x : Array K) : Option (List Nat × Array K) := do
   let last := axes.getLast?
   let fshape := rshape.zipIdx.map fun (n, a) => if hc && some a == last then hcLen n else n
   let order := if hc then axes else axes.reverse
@@ -249,37 +250,32 @@ def dftInverseNd (roots : Nat → Option (K × K)) (conj re : K → K) (fftw plu
       if hc && some a == last then fun g k => re (npIrfft conj winv n g k)
       else if fftw then dftInverseFftw plus w winv n else dftInverseNp plus w winv n
     pure (a, n, F)
-  let lastN := (last.map fun a => rshape.getD a 1).getD 1
-  if hc && !fftw && !passS && irLenNumpyDefault (hcLen lastN) ≠ lastN then
-    pure (.error "err:shape")
-  else pure (.ok (applyAxes fshape steps x))
+  pure (applyAxes fshape steps x)
 
-/-- `DiscreteFourierTransformBase.__init__`: the range shape is computed from the
-`halfcomplex` ARGUMENT (`reciprocal_grid(domain.grid, shift=False, halfcomplex=halfcomplex)`),
-while the transform uses `self.halfcomplex`, which is forced to `False` on complex domains. -/
-def dftRangeLenCoded (n : Nat) (hcArg : Bool) : Nat := (recipGrid n false hcArg).shape
-
+/-- `self.halfcomplex`: forced to `False` on complex domains. -/
 def dftHalfcomplexFlag (complexDom hcArg : Bool) : Bool := if complexDom then false else hcArg
+
+/-- `DiscreteFourierTransformBase.__init__`: the range shape in the last transformed axis,
+`reciprocal_grid(domain.grid, shift=False, halfcomplex=self.halfcomplex, axes=axes).shape`. -/
+def dftRangeLen (n : Nat) (complexDom hcArg : Bool) : Nat :=
+  (recipGrid n false (dftHalfcomplexFlag complexDom hcArg)).shape
+
+/-- The range length of the code before the repair: computed from the `halfcomplex`
+ARGUMENT instead of `self.halfcomplex` (kept for the sensitivity statement only). -/
+def dftRangeLenOld (n : Nat) (hcArg : Bool) : Nat := (recipGrid n false hcArg).shape
 
 /-- Length of the array the transform actually produces on the last axis. -/
 def dftOutLen (n : Nat) (complexDom hcArg : Bool) : Nat :=
   if dftHalfcomplexFlag complexDom hcArg then hcLen n else n
 
-/-- `DiscreteFourierTransformInverse._call_pyfftw` hands the REAL range array to
-`pyfftw_call` even without `halfcomplex`.  pyFFTW accepts a complex-to-real plan only if the
-shapes are complementary in the last axis (`n/2+1 = n`, i.e. `n ≤ 2`) and the direction is
-backward (sign `'+'`); then it runs the half-complex inverse.  Otherwise `ValueError`.
-`none` = no special status, `some (some e)` = raises `e`, `some none` = runs as c2r.
-The NumPy branch assigns the complex result to the real array (imaginary part dropped). -/
-def dftInverseStatus (fftw realRan hc plus : Bool) (lastN : Nat) : Option (Option String) :=
-  if fftw && realRan && !hc then
-    (if hcLen lastN = lastN && plus then some none else some (some "err:value"))
-  else none
+/-- `pyfftw_call`: is the plan CREATED on the array that holds the data?  (FFTW's planner
+overwrites its arrays for every planning effort but `estimate`.)
+`plan_arr_in = np.empty_like(array_in) if must_copy_array_in else array_in`. -/
+def planOnDataArray (mustCopy : Bool) : Bool := !mustCopy
 
-/-- `pyfftw_call`: the array the plan is CREATED on (FFTW's planner overwrites it for every
-planning effort but `estimate`): `plan_arr_in = np.empty_like(array_in)` only
-`if must_copy_array_in and not array_in_copied`, otherwise the array holding the data. -/
-def planOnDataArray (mustCopy arrayInCopied : Bool) : Bool := !(mustCopy && !arrayInCopied)
+/-- The guard before the repair, `if must_copy_array_in and not array_in_copied`: the
+complex copy of real input was planned on although it holds the data (sensitivity only). -/
+def planOnDataArrayOld (mustCopy arrayInCopied : Bool) : Bool := !(mustCopy && !arrayInCopied)
 
 /-- `array_in_copied`: real input without `halfcomplex` is cast to complex first. -/
 def arrayInCopied (realIn hc : Bool) : Bool := realIn && !hc
@@ -289,9 +285,12 @@ def mustCopy (freshPlan plannerDestroys : Bool) : Bool := freshPlan && plannerDe
 
 /-- The data reaches the transform intact iff the planner does not run on the data array or
 does not destroy. -/
-def dataSurvivesPlanning (realIn hc freshPlan plannerDestroys : Bool) : Bool :=
+def dataSurvivesPlanning (freshPlan plannerDestroys : Bool) : Bool :=
+  !(freshPlan && plannerDestroys && planOnDataArray (mustCopy freshPlan plannerDestroys))
+
+def dataSurvivesPlanningOld (realIn hc freshPlan plannerDestroys : Bool) : Bool :=
   !(freshPlan && plannerDestroys &&
-    planOnDataArray (mustCopy freshPlan plannerDestroys) (arrayInCopied realIn hc))
+    planOnDataArrayOld (mustCopy freshPlan plannerDestroys) (arrayInCopied realIn hc))
 
 /-- Does the code hold COMPLEX data after `dft_preprocess_data`?  Real input stays real only
 if every axis is shifted (factors `±1`). -/
@@ -302,11 +301,13 @@ real pre-processed array in the half-complex case. -/
 def ftForwardStatus (fftw realDom hc : Bool) (shifts : List Bool) : Option String :=
   if fftw && hc && preprocComplex realDom shifts then some "err:assert" else none
 
-/-- Status of `FourierTransformInverse._call_*`: `dft_preprocess_data` multiplies a REAL output
-array in place by complex factors (raises a casting error) whenever the array it works on is
-real and some axis is not shifted — half-complex (both back-ends) and real range with pyfftw. -/
-def ftInverseStatus (fftw realRan hc : Bool) (shifts : List Bool) : Option String :=
-  if (hc || (fftw && realRan)) && !shifts.all id then some "err:cast" else none
+/-- Status of `FourierTransformInverse._call_*`: in the half-complex case the result of the
+complex-to-real transform is a REAL array which `dft_preprocess_data` multiplies in place;
+with a non-shifted axis the factors are complex and NumPy raises a casting error (both
+back-ends).  (The real-range full-complex case works on the complex array and takes the real
+part afterwards.) -/
+def ftInverseStatus (hc : Bool) (shifts : List Bool) : Option String :=
+  if hc && !shifts.all id then some "err:cast" else none
 
 /-- `FourierTransform._call_numpy`: pre-process ALL axes, (NumPy's `rfftn` discards the
 imaginary part of complex input), transform, post-process all axes. -/
@@ -328,20 +329,18 @@ def ftForwardNd (roots : Nat → Option (K × K)) (e : Rat → K) (re : K → K)
 def ftInverseNd (roots : Nat → Option (K × K)) (e : Rat → K) (conj re : K → K)
     (amp : Nat → Nat → K) (c : Nat → Nat → Rat) (t : Nat → Rat)
     (plus hc realRan : Bool) (rshape axes : List Nat) (shifts : List Bool) (x : Array K) :
-    Option (Except String (List Nat × Array K)) := do
+    Option (List Nat × Array K) := do
   let last := axes.getLast?
   let fshape := rshape.zipIdx.map fun (n, a) => if hc && some a == last then hcLen n else n
   let pre : List (Nat × Nat × ((Nat → K) → Nat → K)) := axes.map fun a =>
     (a, fshape.getD a 1, fun g j => (e (postExp plus (t a) (c a j)) / amp a j) * g j)
   let (_, x1) := applyAxes fshape pre x
-  match ← dftInverseNd roots conj re false plus hc true rshape axes x1 with
-  | .error s => pure (.error s)
-  | .ok (_, y) =>
-    let post : List (Nat × Nat × ((Nat → K) → Nat → K)) := (axes.zip shifts).map fun (a, sh) =>
-      let n := rshape.getD a 1
-      (a, n, fun f k => e (preExp n sh plus k) * f k)
-    let (sh, z) := applyAxes rshape post y
-    pure (.ok (sh, if realRan then z.map re else z))
+  let (_, y) ← dftInverseNd roots conj re false plus hc rshape axes x1
+  let post : List (Nat × Nat × ((Nat → K) → Nat → K)) := (axes.zip shifts).map fun (a, sh) =>
+    let n := rshape.getD a 1
+    (a, n, fun f k => e (preExp n sh plus k) * f k)
+  let (sh, z) := applyAxes rshape post y
+  pure (sh, if realRan then z.map re else z)
 
 end nd
 
